@@ -304,6 +304,11 @@ class HttpParser(abc.ABC, Generic[_MsgT]):
         assert self._payload_parser is not None
         self._payload_parser.pause_reading()
 
+    def resume_reading(self) -> None:
+        """Reading is being resumed: drop a pause request that was not honoured."""
+        if self._payload_parser is not None:
+            self._payload_parser.resume_reading()
+
     def message_consumed(self) -> None:
         """Protocol drained a queued message; free a slot for parsing."""
         if self._msg_in_flight > 0:
@@ -927,6 +932,12 @@ class HttpPayloadParser:
 
     def pause_reading(self) -> None:
         self._paused = True
+
+    def resume_reading(self) -> None:
+        # A pause request that found no place to be honoured (e.g. the read
+        # ended exactly at the end of a chunk) must not outlive the pause:
+        # the next feed would park its data with nothing left to resume it.
+        self._paused = False
 
     def feed_eof(self) -> None:
         if self._type == ParseState.PARSE_UNTIL_EOF:
